@@ -1,7 +1,8 @@
 // c13race: the free-running stress program of property C13.  It is built by harness/cmd/c13 with `go build -race`
 // (no `verif` tag: the production configuration) and run; every report of the race detector is a violation, and so
 // is every functional failure that the program itself notices (a panic, two different values for one name, a file
-// parsed twice).  Output protocol (stdout): lines `FUNCTIONAL <part> <text>` and `DONE <part> <operations>`.
+// parsed twice, a declaration that the function of the following Do does not find usable).  A part whose goroutines
+// block each other never prints DONE: the caller kills it after its time limit and reports that.  Output protocol (stdout): lines `FUNCTIONAL <part> <text>` and `DONE <part> <operations>`.
 package main
 
 import (
@@ -14,6 +15,7 @@ import (
 	"sync"
 	"sync/atomic"
 
+	"github.com/lyraproj/issue/issue"
 	"github.com/lyraproj/pcore/loader"
 	"github.com/lyraproj/pcore/pcore"
 	"github.com/lyraproj/pcore/px"
@@ -198,8 +200,34 @@ func makeFiles(dir string) {
 	}
 }
 
+// a file that cannot be instantiated: the first load of its name escapes with the parser's error, every other one
+// answers "not found" - and returns (the goroutines that queue on the name lock meanwhile must be released)
+const brokenName = "Fx"
+
+func loadBroken(c px.Context, l px.Loader) {
+	defer func() {
+		if r := recover(); r != nil {
+			if rep, ok := r.(issue.Reported); ok && (rep.Code() == types.ParseError || rep.Code() == px.ParseError) {
+				return
+			}
+			functional("files", "Load(%s) panicked: %v", brokenName, r)
+		}
+	}()
+	var v interface{}
+	var ok bool
+	c.DoWithLoader(l, func() { v, ok = px.Load(c, tn(brokenName)) })
+	if ok {
+		functional("files", "Load(%s) found %v in a file that cannot be parsed", brokenName, v)
+	}
+	atomic.AddInt64(&ops, 1)
+}
+
 func stressFiles(dir string, n, iters int) {
 	makeFiles(dir)
+	if err := os.WriteFile(filepath.Join(dir, "types", strings.ToLower(brokenName)+".pp"),
+		[]byte("type "+brokenName+" = Object[{\n  attributes => {\n    first => String\n    second => Integer\n  }\n}]\n"), 0o644); err != nil {
+		panic(err)
+	}
 	loader.SmartPathFactories[px.PuppetDataTypePath] = func(l px.ModuleLoader, rel bool) loader.SmartPath {
 		return loader.NewSmartPath(`types`, `.pp`, l, []px.Namespace{px.NsType}, rel, false, countingInstantiator)
 	}
@@ -215,6 +243,11 @@ func stressFiles(dir string, n, iters int) {
 			li := r.intn(len(loaders))
 			l := loaders[li]
 			nm := fileNames[r.intn(len(fileNames))]
+			if i < 3 || r.intn(16) == 0 {
+				// everybody asks for the broken name first: one goroutine instantiates, the others queue on the name lock
+				loadBroken(c, l)
+				continue
+			}
 			switch r.intn(4) {
 			case 0, 1:
 				guard("files", "Load", func() {
